@@ -79,7 +79,7 @@ PROPS["C12"] = {
     "pkgs": ["gbn", "mailbox"],
     "level": "exploration",
     "quick_budget": 60, "thorough_budget": 1800,
-    "rule": "Per run the tape picks the phase in which Close lands (constructor context cancelled mid-handshake, idle, mid-burst, full window with a blocked Send, inside a resend / sync wait, only Recv blocked) and the virtual instant inside it, who closes (client, server, both at the same instant), 1-3 concurrent callers per endpoint plus a repeated Close, the transport state at that moment (healthy, total blackout, send callbacks stalled until their context is cancelled), N, timeouts and keepalive. Oracles: Close returns within FIN timeout + 2 s; blocked and later local calls fail; the peer is closed with all its calls failed within FIN timeout + 2 x latency + 2 s on a healthy transport (keepalive bound on a dead one); afterwards no task spawned by the connection code is alive (task registry with spawn sites) and no ticker created by it still ticks (drain, advance one virtual hour, look). mb-close: the same for the mailbox connections in the full stack over the stub relay (Close by client / server / both, 1-2 concurrent callers, idle or mid-transfer; bounded return; both applications released; after listener and dialer shutdown nothing of gbn/mailbox is left). close-anytime also has an unread-backlog phase (more than a window of packets received that the application never reads) and, with the stalled transport, a send callback that serialises its callers; mb-close calls Close with the relay down or restarted in one run of five. fin-after-resent-handshake: the handshake needs one retransmission (first SYN or first SYNACK lost), then the peer closes without having sent anything: the FIN is the first packet of the data phase and must end the blocked Recv." + SIG_RULE,
+    "rule": "Per run the tape picks the phase in which Close lands (constructor context cancelled mid-handshake, idle, mid-burst, full window with a blocked Send, inside a resend / sync wait, only Recv blocked) and the virtual instant inside it, who closes (client, server, both at the same instant), 1-3 concurrent callers per endpoint plus a repeated Close, the transport state at that moment (healthy, total blackout, send callbacks stalled until their context is cancelled), N, timeouts and keepalive. Oracles: Close returns within FIN timeout + 2 s; blocked and later local calls fail; the peer is closed with all its calls failed within FIN timeout + 2 x latency + 2 s on a healthy transport (keepalive bound on a dead one); afterwards no task spawned by the connection code is alive (task registry with spawn sites) and no ticker created by it still ticks (drain, advance one virtual hour, look). mb-close: the same for the mailbox connections in the full stack over the stub relay (Close by client / server / both, 1-2 concurrent callers, idle or mid-transfer; bounded return; both applications released; after listener and dialer shutdown nothing of gbn/mailbox is left). close-anytime also has an unread-backlog phase (more than a window of packets received that the application never reads) and, with the stalled transport, a send callback that serialises its callers; mb-close calls Close with the relay down or restarted in one run of five. fin-after-resent-handshake: the handshake needs one retransmission (first SYN or first SYNACK lost), then the peer closes without having sent anything: the FIN is the first packet of the data phase and must end the blocked Recv. mb-close: in half of the runs the relay stub's send side is asynchronous like a gRPC client stream (Send queues and returns; cancelling the stream's context drops what is still queued; CloseAndRecv flushes), and the peer must learn of the closure within 3 s, i.e. from the FIN itself, not from its keepalive." + SIG_RULE,
     "assumptions": ["leak oracle relies on the task registry of the simulator: every goroutine of the code under test is a registered task named by its spawn site"],
     "components": GBN_COMPONENTS,
     "expected_probes": ["c12.mb-closed-with-relay-down", "c12.peer-notified"],
@@ -229,7 +229,7 @@ PROPS["C05"] = {
     "pkgs": ["mailbox"],
     "level": "exploration",
     "quick_budget": 80, "thorough_budget": 2400,
-    "rule": "Each run builds the whole stack (Server/Client, ServerConn/ClientConn with their retry loops, GBN with the production timeouts, NoiseGrpcConn at max version 0/1/2, auth payload 0..3000 B) over the stub relay. relay-faults: until a tape-chosen instant (5..64 s) the relay drops/delays messages, fails Recv/Send calls (killing the stream), fails NewCipherBox/RecvStream/SendStream, blocks Send (full mailbox); then it is reliable. Each connection instance writes a self-describing pseudo-random stream (plan up to 120 kB, 1 in 8 runs up to 1 MiB) in writes of 0..65535 bytes and verifies the peer's stream byte by byte; the client closes a completed connection and re-dials. Oracles: stream equality online; at heal + 20 virtual minutes a connection opened after the last fault has completed its transfer (otherwise 'silent stall' if nothing at all happened in the last third, 'no completion' if retries keep failing); every message the relay saw decodes as a GBN packet and no DATA payload contains a 16-byte window of application plaintext or of the auth payload. One run in four uses bounded mailboxes (a Send blocks while the mailbox holds 3 or 16 messages, as the real relay's pipe-backed mailbox pushes back); one run in five has a client application that gives its first connections up in the middle of the transfer (stops reading, closes)." + SIG_RULE,
+    "rule": "Each run builds the whole stack (Server/Client, ServerConn/ClientConn with their retry loops, GBN with the production timeouts, NoiseGrpcConn at max version 0/1/2, auth payload 0..3000 B) over the stub relay. relay-faults: until a tape-chosen instant (5..64 s) the relay drops/delays messages, fails Recv/Send calls (killing the stream), fails NewCipherBox/RecvStream/SendStream, blocks Send (full mailbox); then it is reliable. Each connection instance writes a self-describing pseudo-random stream (plan up to 120 kB, 1 in 8 runs up to 1 MiB) in writes of 0..65535 bytes and verifies the peer's stream byte by byte; the client closes a completed connection and re-dials. Oracles: stream equality online; at heal + 20 virtual minutes a connection opened after the last fault has completed its transfer (otherwise 'silent stall' if nothing at all happened in the last third, 'no completion' if retries keep failing); every message the relay saw decodes as a GBN packet and no DATA payload contains a 16-byte window of application plaintext or of the auth payload. One run in four uses bounded mailboxes (a Send blocks while the mailbox holds 3 or 16 messages, as the real relay's pipe-backed mailbox pushes back); one run in five has a client application that gives its first connections up in the middle of the transfer (stops reading, closes). The relay stub's send side is asynchronous (gRPC-like) in two runs of three." + SIG_RULE,
     "assumptions": ["the relay is a model of aperture's hashmail server; behaviour of the real server that the model lacks is not covered", "'completes' is required of some connection opened after the last fault; earlier connections may fail visibly"],
     "components": STACK_COMPONENTS,
     "expected_probes": ["stack.abandoned-mid-transfer", "c05.transfer-complete-after-heal", "c05.reconnected", "c05.connection-failed-visibly"],
@@ -241,7 +241,7 @@ PROPS["C11"] = {
     "pkgs": ["mailbox"],
     "level": "exploration",
     "quick_budget": 80, "thorough_budget": 2400,
-    "rule": "Each run drives one session through 2..5 rounds; a round waits until a connection has carried a complete transfer in both directions, then the tape picks the next event (close by client, by server, by both at the same instant, or a relay outage of 3..22 s that fails every stream operation) and its delay. The application behaves as gRPC does: Accept is re-entered immediately, Dial is sometimes called while a connection is open. Max handshake version 2 (pairing, rendezvous switch) in 4 of 5 runs, 1 otherwise. Oracles: at every Accept/Dial return the previous connection's Done() is closed; after each event a new connection completes a transfer within 4 virtual minutes; once both onRemoteStatic callbacks fired, later connections use equal, key-derived (not passphrase-derived) session ids with pairwise-crossed stream ids seen by the relay and the KK pattern; at the end a second client with a fresh key and only the passphrase must not complete a handshake. Histories also contain relay-restart events (every mailbox and queued message lost, optionally right after one side closed) and, in a third of the runs, failing DelCipherBox calls." + SIG_RULE,
+    "rule": "Each run drives one session through 2..5 rounds; a round waits until a connection has carried a complete transfer in both directions, then the tape picks the next event (close by client, by server, by both at the same instant, or a relay outage of 3..22 s that fails every stream operation) and its delay. The application behaves as gRPC does: Accept is re-entered immediately, Dial is sometimes called while a connection is open. Max handshake version 2 (pairing, rendezvous switch) in 4 of 5 runs, 1 otherwise. Oracles: at every Accept/Dial return the previous connection's Done() is closed; after each event a new connection completes a transfer within 4 virtual minutes; once both onRemoteStatic callbacks fired, later connections use equal, key-derived (not passphrase-derived) session ids with pairwise-crossed stream ids seen by the relay and the KK pattern; at the end a second client with a fresh key and only the passphrase must not complete a handshake. Histories also contain relay-restart events (every mailbox and queued message lost, optionally right after one side closed) and, in a third of the runs, failing DelCipherBox calls. The relay stub's send side is asynchronous (gRPC-like) in two runs of three." + SIG_RULE,
     "assumptions": ["'a first pairing in which static keys were exchanged' = both onRemoteStatic callbacks fired; a half-pairing (initiator stored the key, responder never saw act 3) is counted by a probe, see DESIGN.md", "the relay model frees a box's reader when its context is cancelled"],
     "components": STACK_COMPONENTS,
     "expected_probes": ["c11.handout-after-previous-closed", "c11.reconnected-on-key-derived-rendezvous", "c11.early-dial"],
